@@ -1022,7 +1022,10 @@ class Rewriter:
                 fdata = fp.read()
 
             # Generate line offsets numbers
-            m_lines = fdata.splitlines(True)
+            # Only '\n' ends a line for the parser; splitlines() would also
+            # split at form feeds, vertical tabs and other Unicode separators
+            m_lines = fdata.split('\n')
+            m_lines = [x + '\n' for x in m_lines[:-1]] + m_lines[-1:]
             offset = 0
             line_offsets = []
             for j in m_lines:
